@@ -114,7 +114,7 @@ def _authn():
 
 
 @obligation(funcs=["auth.Authenticator.check_auth_event", "auth.Authenticator.parse_options"], params=range(4),
-            timeout=(150, 900),
+            timeout=(150, 1500),
             bounds="<=2 tags (3 in the thorough tier), each from {relay <one of 6 URL variants incl. substring/empty/superstring>, challenge <this, "
                    "other connection's, empty, prefix>, unrelated, bare relay, bare challenge} by symbolic selectors; kind, "
                    "created_at, now symbolic ints; signature oracle symbolic; relay_urls configured as absent / str / "
